@@ -226,7 +226,11 @@ fn handle(parts: &[&str]) -> String {
         "format_range" => {
             let s = unhex(parts[1]);
             let src = Source::detached(s);
-            let t = Typstyle::new(config(parts[4], parts[5], "0"));
+            let mut cfg = config(parts[4], parts[5], "0");
+            if parts.len() > 6 {
+                cfg.blank_lines_upper_bound = num(parts[6]);
+            }
+            let t = Typstyle::new(cfg);
             match t.format_source_range(&src, num(parts[2])..num(parts[3])) {
                 Ok((r, txt)) => format!("ok {} {} {}", r.start, r.end, hex(&txt)),
                 Err(_) => "err".into(),
